@@ -767,7 +767,7 @@ def rule_flow_err(ctx):
                     seen += 1
             ok = how in ("?", "returned") or allowed_other.get((caller, short)) == how or (how == "closure" and caller == "natural_b_atom") or (how == "match" and "mu" in caller) or (how in ("is_some",) and "regularity" in caller)
             ctx.add("FLOW-ERR", "%s->%s:%s" % (caller, short, how), ok, ctx.site(b), "the Option of %s is consumed in %s by `%s`" % (short, caller, how))
-    ctx.floor("FLOW-ERR", "option-call-sites", n, 14)
+    ctx.floor("FLOW-ERR", "option-call-sites", n, 6)
     # the expect sites: guarded by the second-kind test
     b = body_of(fx, "natural_head_interval")
     exps = [c for c in walk(b["body"]) if c.get("k") == "MethodCall" and c.get("method") == "expect"]
